@@ -316,6 +316,8 @@ class _NumericOperationsImpl(OperationsBlock):
         out_values = ndx.where(x_values > 0, 1, ndx.where(x_values < 0, -1, 0)).astype(
             x_values.dtype
         )
+        if isinstance(x_values.dtype, dtypes.Floating):
+            out_values = ndx.where(ndx.isnan(x_values), x_values, out_values)
         if x_null is None:
             return out_values
         else:
